@@ -79,7 +79,7 @@ def mutatorWhy (σ σ' : St) (fuel : Nat) : String :=
     ("new-colour", allB new (fun a => σ'.marked a == (σ.phase != .idle))),
     ("new-gray", allB new (fun a => σ.phase != .marking || σ'.gray.contains a)),
     ("marks", allB σ.heap (fun a => σ'.marked a == σ.marked a ||
-        (σ.phase == .marking && !σ.marked a && σ'.marked a && σ'.gray.contains a))),
+        (σ.phase == .marking && !σ.marked a && σ'.marked a && σ'.gray.contains a && R.contains a))),
     ("gray-grows", decide (σ'.gray.drop k = σ.gray) && decide (σ.gray.length ≤ σ'.gray.length)),
     ("pushed", allB (σ'.gray.take k) (fun a => σ'.heap.contains a && σ'.marked a) && (σ.phase == .marking || k == 0)),
     ("refs", allB σ'.heap (fun a => allB (σ'.children a) (fun c =>
